@@ -12,7 +12,7 @@
    the argument alphabet below from every start size <= 3x3; random histories up to length 40 with
    about one invalid argument in six; every constructor with empty / jagged / wrongly sized /
    overflowing input."""
-import itertools
+import itertools, re
 from tools.vlib import sx, MAXU
 
 THEOREMS_FILE = "C11"
@@ -252,11 +252,16 @@ def gen(tier, rng):
         yield random_history(rng, 120)
 
 
+_STEP = re.compile(r"\((0|2) \(\(\d+ \d+\)")
+
+
 def nontrivial(case, model_out):
-    """a history of at least two operations on a successfully constructed matrix in which at least
-    one operation returned and (for the exhaustive part) both outcomes are represented overall"""
-    return model_out.startswith("(0 (") and model_out.count("(0 ((") + model_out.count("(2 ((") >= 2 \
-        and "(0 ((" in model_out[4:]
+    """a successfully constructed matrix followed by at least two operations of which at least one
+    returned normally (the panicking ones are then followed by continued use of the object)"""
+    if not model_out.startswith("(0 ((("):
+        return False
+    steps = _STEP.findall(model_out[5:])
+    return len(steps) >= 2 and "0" in steps
 
 
 def distribution(lines):
